@@ -101,10 +101,11 @@ type TermCtx struct {
 	ufs    map[string]*Term // first application of each UF (for declaration)
 	nTerms int
 	cons   map[string]*Term
+	cons2  map[termKey]*Term
 }
 
 func NewTermCtx() *TermCtx {
-	return &TermCtx{ufs: map[string]*Term{}, cons: map[string]*Term{}}
+	return &TermCtx{ufs: map[string]*Term{}, cons: map[string]*Term{}, cons2: map[termKey]*Term{}}
 }
 
 func mask(w int) uint64 {
@@ -114,43 +115,43 @@ func mask(w int) uint64 {
 	return (uint64(1) << uint(w)) - 1
 }
 
+type termKey struct {
+	op         Op
+	k          SortKind
+	w, ew      int
+	val        uint64
+	n          int
+	a0, a1, a2 int
+}
+
 func (c *TermCtx) mk(op Op, s Sort, args ...*Term) *Term {
-	// light hash-consing for small nodes to make pointer-equality useful
-	var key string
-	if len(args) <= 3 {
-		var sb strings.Builder
-		fmt.Fprintf(&sb, "%d:%d:%d:%d", op, s.K, s.W, s.EW)
-		for _, a := range args {
-			fmt.Fprintf(&sb, ",%d", a.ID)
+	return c.mkv(op, s, 0, args...)
+}
+
+func (c *TermCtx) mkv(op Op, s Sort, val uint64, args ...*Term) *Term {
+	cons := len(args) <= 3
+	var key termKey
+	if cons {
+		key = termKey{op: op, k: s.K, w: s.W, ew: s.EW, val: val, n: len(args)}
+		if len(args) > 0 {
+			key.a0 = args[0].ID
 		}
-		key = sb.String()
-		if t, ok := c.cons[key]; ok {
+		if len(args) > 1 {
+			key.a1 = args[1].ID
+		}
+		if len(args) > 2 {
+			key.a2 = args[2].ID
+		}
+		if t, ok := c.cons2[key]; ok {
 			return t
 		}
 	}
 	c.next++
 	c.nTerms++
-	t := &Term{Op: op, S: s, Args: args, ID: c.next}
-	if key != "" {
-		c.cons[key] = t
-	}
-	return t
-}
-
-func (c *TermCtx) mkv(op Op, s Sort, val uint64, args ...*Term) *Term {
-	var sb strings.Builder
-	fmt.Fprintf(&sb, "%d:%d:%d:%d:v%d", op, s.K, s.W, s.EW, val)
-	for _, a := range args {
-		fmt.Fprintf(&sb, ",%d", a.ID)
-	}
-	key := sb.String()
-	if t, ok := c.cons[key]; ok {
-		return t
-	}
-	c.next++
-	c.nTerms++
 	t := &Term{Op: op, S: s, Args: args, ID: c.next, Val: val}
-	c.cons[key] = t
+	if cons {
+		c.cons2[key] = t
+	}
 	return t
 }
 
